@@ -203,6 +203,8 @@ class SolverSeam:
         self.on_iteration = None  # hook run "between iterations" of a stubbed solve
         self.stub_point = "x0"  # x0 | seeded
         self._orig = {}
+        self.interrupt_after = None  # armed: the k-th call into Opti while transcribing raises KeyboardInterrupt
+        self.interrupts_fired = 0
 
     def install(self):
         O = ca.Opti
@@ -235,6 +237,20 @@ class SolverSeam:
             seam.to_function_reached += 1
             return seam._orig["to_function"](self_, *args)
 
+        # calls rockit makes into Opti while it transcribes: the places where Ctrl-C can arrive during a long transcription
+        for nm in ("variable", "parameter", "subject_to", "minimize", "set_initial", "set_value"):
+            self._orig[nm] = getattr(O, nm)
+
+            def counting(self_, *a, _nm=nm, **kw):
+                if seam.interrupt_after is not None:
+                    seam.interrupt_after -= 1
+                    if seam.interrupt_after < 0:
+                        seam.interrupt_after = None
+                        seam.interrupts_fired += 1
+                        raise KeyboardInterrupt()
+                return seam._orig[_nm](self_, *a, **kw)
+
+            setattr(O, nm, counting)
         O.solver = solver
         O.callback = callback
         O.solve = solve
